@@ -402,6 +402,10 @@ macro_rules! impl_nio_read {
                     }
                     let error_kind = std::io::Error::last_os_error().kind();
                     if error_kind == std::io::ErrorKind::WouldBlock {
+                        if !blocking {
+                            // the caller asked for non-blocking semantics
+                            break;
+                        }
                         //wait read event
                         left_time = start_time
                             .saturating_add($crate::syscall::recv_time_limit($fd))
@@ -488,6 +492,10 @@ macro_rules! impl_nio_read_buf {
                     }
                     let error_kind = std::io::Error::last_os_error().kind();
                     if error_kind == std::io::ErrorKind::WouldBlock {
+                        if !blocking {
+                            // the caller asked for non-blocking semantics
+                            break;
+                        }
                         //wait read event
                         left_time = start_time
                             .saturating_add($crate::syscall::recv_time_limit($fd))
@@ -713,6 +721,10 @@ macro_rules! impl_nio_write_buf {
                     }
                     let error_kind = std::io::Error::last_os_error().kind();
                     if error_kind == std::io::ErrorKind::WouldBlock {
+                        if !blocking {
+                            // the caller asked for non-blocking semantics
+                            break;
+                        }
                         //wait write event
                         left_time = start_time
                             .saturating_add($crate::syscall::send_time_limit($fd))
